@@ -153,7 +153,10 @@ package fs
 // ---- hard-link snapshots (C19) ----
 // CreateHardLink's walk callback: returning filepath.SkipDir prunes everything that follows in the directory being
 // walked, so it may only answer a DIRECTORY the filter rejected; a rejected FILE is skipped alone (return nil). Thin
-// contract: the callback is run from an arbitrary state on arbitrary arguments (filepath.Walk is external).
+// contract: the callback is run from an arbitrary state on arbitrary arguments (filepath.Walk is external). Also: every
+// `return nil` of the function and of its callback - the answers that let the copy go on or report it complete - is
+// reached only with no error pending (the `err` in scope is nil), so an entry that could not be read or linked is never
+// passed over silently while the manifest still lists it.
 //@ type fs.FileInfo
 //@   ghost isDir bool
 //@ func fs.FileInfo.IsDir
@@ -200,6 +203,7 @@ package fs
 //@   mode int
 //@   opt only-stated
 //@   at-stmt "return filepath.SkipDir" requires only-a-rejected-directory-prunes-what-follows: info.isDir
+//@   at-stmt "return nil" requires success-only-when-no-error-is-pending: err == nil
 //@ func localFileSystem.SyncPath
 //@   property C19
 //@   assumed fsync of a path (external)
